@@ -1,7 +1,7 @@
 #!/usr/bin/env python3
 """seedeval.py <PROP> <variant> [--checks C01,C02,...]
 1. confirms the seeded change in its scratch worktree /tmp/wt/<PROP> (demo passes pristine, fails patched, pinned suite still passes patched),
-2. applies it to /repo, runs the listed quick checks (default: all registered), undoes it,
+2. runs the listed quick checks (default: all registered) from a scratch copy of /verif against the patched scratch worktree,
 3. stores /verif/seeded/<PROP>-<variant>/{patch.diff,demo_test.go,meta.json}."""
 import json, os, subprocess, sys, shutil, re, time
 prop, var = sys.argv[1], sys.argv[2]
@@ -34,29 +34,30 @@ print('confirm:', meta['confirmed'])
 if not (rc0 == 0 and rca == 0 and rc1 != 0 and rcb == 0):
     print(out0[-800:], outa[-400:], out1[-800:], outb[-800:])
     print('NOT CONFIRMED'); sys.exit(1)
-# 2. run the checks against /repo with the patch applied
-rc, out = sh('git status --porcelain', '/repo')
-assert out.strip() == '', '/repo not clean: ' + out
-rc, out = sh(f'git apply {patch}', '/repo')
-if rc != 0:
-    print('patch does not apply to /repo HEAD:', out); sys.exit(1)
+# 2. run the checks against the patched scratch worktree: a scratch copy of /verif whose go.mod points at it (VERIF_REPO),
+#    so /repo itself stays untouched and several evaluations can run side by side
+rc, out = sh(f'git apply {patch}', wt)
+assert rc == 0, out
+vc = f'/tmp/sv/{prop}-{var}'
+sh(f'rm -rf {vc}; mkdir -p /tmp/sv; rsync -a --exclude bin --exclude .work --exclude replays --exclude .git /verif/ {vc}/')
 try:
     if checks is None:
         m = json.load(open('/verif/MANIFEST.json'))
         checks = [c['property_id'] for c in m['checks']]
     results = {}
+    e2 = dict(env, VERIF_REPO=wt)
     for c in checks:
         t0 = time.time()
-        rc, out = sh(f'./check {c} quick', '/verif')
+        p = subprocess.run(f'./check {c} quick', shell=True, cwd=vc, env=e2, capture_output=True, text=True, timeout=3600)
+        rc, out = p.returncode, p.stdout + p.stderr
         viol = [l for l in out.split('\n') if l.startswith('VIOLATION')]
         kinds = sorted(set(re.findall(r'kind="([^"]+)"', '\n'.join(viol))))
         results[c] = {'exit': rc, 'violations': len(viol), 'kinds': kinds[:6], 'wall_s': round(time.time()-t0, 1)}
-        print(c, results[c])
+        print(c, results[c], flush=True)
     meta['checks_with_patch_applied'] = results
 finally:
-    sh('git checkout -- .', '/repo')
-    rc, out = sh('git status --porcelain', '/repo')
-    assert out.strip() == '', '/repo not restored: ' + out
+    sh('git checkout -- .', wt)
+    sh(f'rm -rf {vc}')
 meta['detected_by'] = sorted(c for c, r in meta['checks_with_patch_applied'].items() if r['exit'] == 1)
 # 3. store
 dst = f'/verif/seeded/{prop}-{var}'
@@ -66,6 +67,6 @@ if readme: open(dst + '/README.md', 'w').write(readme)
 meta['needs_to_manifest'] = ''
 m = re.search(r'(?is)(needs?[^\n]*manifest.*?)(\n#|\n\n\n|\Z)', readme)
 meta['ran'] = ['scratch worktree: demo on pristine (pass), git apply, demo on patched (fail), tools/baseline.sh on patched (238/238)',
-               '/repo: git apply, ./check <ID> quick for ' + ','.join(checks) + ', git checkout -- .']
+               'scratch worktree with the patch applied + scratch copy of /verif pointed at it (VERIF_REPO): ./check <ID> quick for ' + ','.join(checks)]
 json.dump(meta, open(dst + '/meta.json', 'w'), indent=1)
 print('DETECTED BY:', meta['detected_by'])
